@@ -136,10 +136,16 @@ Run(d, tmp, A, now, m, fx, ord) ==
 (* Property C32 over (before, after) of one cleanup with assigned set A at time now.        *)
 Old(d, r, now) == \E x \in Shards(d, "t", r) : x.mt < now - Day
 
+\* why the compound shard holding r disappeared: on behalf of another member whose shards
+\* disagree on the name, or of another member that is (being) removed from the index
+CmpGone(pre, r) ==
+  IF \E x \in {y \in At(pre, "i") : IsCmp(y)} : \E e \in x.mem : e.id # r /\ ~e.tb /\ ~Consistent(pre, e.id)
+  THEN "compound-removed-for-renamed" ELSE "compound-removed-for-unassigned"
+
 \* (1) assigned repositories are never deleted or trashed unless their shards disagree on the name
 Viol1(pre, post, A) ==
   UNION {{[c |-> "assigned-lost", r |-> r,
-           cause |-> IF IsCmp(x) THEN (IF Exists(post, "i", CMP) THEN "compound-tombstoned" ELSE "compound-removed")
+           cause |-> IF IsCmp(x) THEN (IF Exists(post, "i", CMP) THEN "compound-tombstoned" ELSE CmpGone(pre, r))
                      ELSE IF Exists(post, "t", x.f) THEN "simple-trashed" ELSE "simple-removed"]
           : x \in {y \in Shards(pre, "i", r) :
                      ~\E z \in Shards(post, "i", r) : z.f = y.f /\ NameIn(z, r) = NameIn(y, r)}}
@@ -155,7 +161,7 @@ Viol2(pre, post, A, now) ==
                : x \in {y \in Shards(pre, "t", r) : ~\E z \in Shards(post, "i", r) : z.f = y.f}}
          ELSE IF r \in TombRepos(pre) /\ Shards(post, "i", r) = {}
          THEN {[c |-> "not-restored", r |-> r,
-                cause |-> IF Exists(post, "i", CMP) THEN "still-tombstoned" ELSE "compound-removed"]}
+                cause |-> IF Exists(post, "i", CMP) THEN "still-tombstoned" ELSE CmpGone(pre, r)]}
          ELSE {}
          : r \in A}
 
@@ -180,6 +186,6 @@ Viol(pre, post, A, now) == Viol1(pre, post, A) \cup Viol2(pre, post, A, now)
 
 \* The deviation of the code from the statement that the model reproduces (findings C32-F1):
 \* the whole compound shard is removed on behalf of one member, taking the other members along.
-Known(v) == v.cause = "compound-removed"
+Known(v) == v.cause \in {"compound-removed-for-renamed", "compound-removed-for-unassigned"}
 
 =============================================================================
